@@ -22,7 +22,7 @@ pub fn run<R>(d: &mut Driver, name: &str, f: impl FnOnce() -> R) -> Option<(R, E
 
 /// index argument: boundary classes 0, 1, n-1, n, n/2, random
 pub fn pick_idx(ch: &mut dyn Chooser, n: usize) -> (usize, &'static str) {
-    let ncls = if ch.exhaustive() { 5 } else { 6 };
+    let ncls = if ch.exhaustive() { 4 } else { 6 };
     match ch.choose(ncls) {
         0 => (0, "0"),
         1 => (1.min(n), if n >= 1 { "1" } else { "n" }),
@@ -400,7 +400,10 @@ pub fn step(d: &mut Driver, ch: &mut dyn Chooser, allow_ctor: bool) {
         return;
     }
     let i = ch.choose(d.pool.len());
-    if d.ooc && ch.chance(1, 4) {
+    d.hist_steps += 1;
+    // exhaustive mode: the first step is an out-of-contract call, the rest are continuations
+    let do_ooc = d.ooc && if ch.exhaustive() { d.hist_steps == 1 } else { ch.chance(1, 4) };
+    if do_ooc {
         super::ops_ooc::ooc_step(d, ch, i);
     } else {
         let full = d.pool.len() >= MAXPOOL;
